@@ -1,40 +1,101 @@
-# Per-property configuration for ./check: Lean modules, theorem names that must appear in the
-# axiom audit, correspondence streams (name, scenarios in quick, scenarios in thorough).
+# Per-property configuration for ./check: Lean theorem module, correspondence streams
+# (name, scenarios in quick, scenarios in thorough), texts for MANIFEST.json.
+# The property theorems are whatever `theorem`s lean/WS/Props/<id>.lean declares.
+import json as _json, os as _os
+
 ALLOWED_AXIOMS = {"propext", "Classical.choice", "Quot.sound"}
 FORBIDDEN = [r"\bsorry\b", r"\badmit\b", r"^\s*axiom\s", r"native_decide", r"bv_decide", r"implemented_by", r"\bunsafe\s", r"maxHeartbeats\s+0"]
 
 TB_COMMON = [
-    "Lean 4.33.0 kernel; axioms allowed: propext, Classical.choice, Quot.sound (audited by #print axioms on every run)",
-    "factgen (go/ast translator regenerating lean/WS/Gen from /repo) and expect/inventory.json",
-    "correspondence harness (go/cmd/harness, tag verif) with its canonicalisation, and the independent RFC 6455 / RFC 7692 oracles in rfc.go",
-    "hand-written Lean model of the code (WS/Model); tied to the code only by the translator and by differential runs",
+    "Lean 4.33.0 kernel; axioms allowed: propext, Classical.choice, Quot.sound (audited with #print axioms on every run); no sorry/admit/axiom/native_decide/bv_decide (grepped on every run)",
+    "factgen (go/cmd/factgen: go/ast translator regenerating lean/WS/Gen from /repo on every run) and the hand-written expectations in expect/inventory.json",
+    "correspondence harness (go/cmd/harness built with -tags verif against /repo's working tree), its canonicalisation of errors/deadlines, and the independent RFC 6455 / RFC 7692 / RFC 7230 oracles it contains",
+    "the hand-written Lean model lean/WS/Model (modelled, not verified against the Go semantics): tied to the code only by the translator and by differential runs",
+    "environment parameters with assumed behaviour: compress/flate, crypto/rand, encoding/json, net/http, net/url, bufio (modelled in WS/Model/Source.lean), io.ReadAll buffer growth (measured), Go scheduler / channels / sync",
 ]
+
+ASSUME_FLATE = "compress/flate is an environment answer: what it emits is recorded from the run and validated against an independent deflate of the same writes (trunc spec)"
+ASSUME_BUFIO = "bufio.Reader, io.CopyN and io.ReadAll are modelled (WS/Model/Source.lean), not verified; the model is compared with the real ones on every scenario"
+
 
 def P(**kw):
     kw.setdefault("level", "proof")
     kw.setdefault("trusted_base", TB_COMMON)
+    kw.setdefault("assumptions", [])
     return kw
 
+
 PROPS = {
+    "C01": P(
+        technique="Lean 4 theorems (induction over byte lists / chunk lists) + differential correspondence model vs implementation",
+        level_text="Proof of the data transformations every message goes through, for all inputs: word-at-a-time masking = RFC byte-wise masking for every alignment/key/offset/length, masking involutive and offset-carrying across splits, truncWriter forwards all but the last 4 bytes for every chunking, strict frame decode inverts the writer's encode for every length < 2^63; the per-message round trip over the writer model (any buffer size, any split of writes, controls in between) and the reader's decoding of any conformant fragmentation are C02.message_roundtrip / C03.read_message. Tie: random write programs and random conformant streams run on the real package and on the compiled model, wire bytes and delivered bytes compared exactly; an independent RFC decoder/inflater judges sent vs delivered.",
+        level_note="compress/flate and encoding/json are parameters; end-to-end composition through a real connected pair is checked by correspondence (stream pair), the theorem composition is per side.",
+        lean=["WS.Props.C01"],
+        streams=[("w", 500, 12000), ("rconf", 500, 12000), ("unit", 300, 6000), ("pair", 150, 3000)],
+        assumptions=[ASSUME_FLATE, ASSUME_BUFIO],
+    ),
+    "C02": P(
+        technique="Lean 4 invariant proof over all write programs (induction over the operation list) + strict RFC decoder spec + differential correspondence",
+        level_text="Proof: for every program over the write API, every buffer size, role, pool and compression setting and every environment answer, the wire of a fault-free connection is a concatenation of frames that the strict RFC 6455 decoder (written from the RFC in WS/Spec/Frame.lean; non-minimal lengths are undecodable) accepts, masked iff client; frame-record level well-formedness (RSV bits, fragmentation grammar, control frames) and payload content are WS.Lemmas.WireWF / Content. Tie: exact wire bytes of the real package vs the model on random programs incl. prepared messages, compression toggles, pools; independent Go RFC decoder + inflater on the real wire.",
+        level_note="crypto/rand quality is not modelled (site inventory pins newMaskKey/maskRand uses); flate output is an environment answer validated against the trunc spec. Finding F8 (prepared data message while a writer is open) excluded from the grammar theorem and recorded.",
+        lean=["WS.Props.C02"],
+        streams=[("w", 800, 16000), ("wclose", 300, 6000)],
+        assumptions=[ASSUME_FLATE],
+    ),
+    "C03": P(
+        technique="Lean 4 refinement proof (bufio model ⊑ byte stream) + reader theorems + differential correspondence with an independent encoder",
+        level_text="Proof that the byte source the reader sees is a plain stream whatever the transport chunking, bufio size and read sizes (take/read/skip laws over the bufio model, all chunkings), and that unmasking is position-correct across reads; message-level decoding of any conformant fragmentation with interleaved controls and abandonment is WS.Lemmas.ReaderDecodes. Tie: conformant streams from an independent Go encoder (all length classes, extreme keys, empty fragments, controls anywhere, deflate at several levels) fed through scripted transports with 6 chunkings and read with random programs (ReadMessage, NextReader+reads of 13 sizes, abandon, stale readers) on the real package and the model; every returned byte count compared.",
+        level_note="Decompression is an environment answer (independent inflate of the same bytes); ReadJSON/JoinMessages over compressed messages are judged by the oracle only.",
+        lean=["WS.Props.C03"],
+        streams=[("rconf", 800, 16000), ("join", 200, 4000)],
+        assumptions=[ASSUME_BUFIO, ASSUME_FLATE],
+    ),
+    "C04": P(
+        technique="Lean 4 proof of the header decision logic over the full header alphabet + decide over the regenerated check list + differential correspondence",
+        level_text="Proof: the reader's header check reports an error exactly for the violations the property lists (all b0/b1, both roles, negotiated or not, idle or mid-message); the accepted close codes are exactly 1000-1003, 1007-1013, 3000-4999 (table regenerated from conn.go); the list of checks recognised in today's advanceFrame equals the modelled one (decide). Tie: every violation class injected after random conformant prefixes, in both protocol states, on the real package and the model (errors, 1002 frames, handler logs compared exactly); oracle: nothing after the violation surfaces, same error twice, 1002 written.",
+        level_note="RSV1 on control/continuation frames while negotiated is accepted by the code and is not in the property's list; a 1-byte close body is treated as no body.",
+        lean=["WS.Props.C04"],
+        streams=[("rviol", 800, 16000)],
+        assumptions=[ASSUME_BUFIO],
+    ),
+    "C05": P(
+        technique="Lean 4 proof over the bufio model (all cuts, all chunkings) + fault enumeration by differential correspondence",
+        level_text="Proof at the source level: a header or skipped remainder that did not fully arrive is an error (EOF mapped to 1006), never a short result; delivered bytes are a prefix in order; the terminal error repeats. Tie/fault enumeration: random streams cut at random and boundary offsets with EOF / error / timeout, error alone or together with the last bytes, all chunkings, explicit read sizes; model predicts every result incl. bufio pass-through effects; oracle: a message reported complete lies wholly before the cut and is byte-identical; errors are permanent.",
+        level_note="Finding F1 (EOF together with the last bytes of a non-final frame makes a truncated message look complete) is a genuine defect, listed in KNOWN_FINDINGS.txt with its signature.",
+        lean=["WS.Props.C05"],
+        streams=[("rcut", 800, 20000)],
+        assumptions=[ASSUME_BUFIO],
+    ),
     "C09": P(
         technique="Lean 4 theorem over an interleaving semantics (invariant by induction over the step relation) + decide over generated skeletons + differential correspondence",
         level_text="Proof: in every reachable state of every interleaving of any number of threads of the lock protocol a close frame is last on the wire, nothing is appended after it and later writers fail (WS.Props.C09, Lean kernel). The protocol is tied to today's Conn.write/WriteControl by WellLocked decided over statement skeletons regenerated from /repo, and the sequential model is tied by differential runs (close sent at every step of random programs, transport faults).",
         level_note="Assumes Go channel/mutex atomicity as modelled; model of conn.go hand-written (tie: factgen skeletons + harness); flate is an environment answer.",
         lean=["WS.Props.C09"],
-        theorems=["WS.Props.C09.close_is_last", "WS.Props.C09.no_byte_after_close", "WS.Props.C09.writeErr_after_close_released",
-                  "WS.Props.C09.only_checkFail_after_close", "WS.Props.C09.write_wellLocked", "WS.Props.C09.writeControl_wellLocked",
-                  "WS.Props.C09.seq_nothing_after_close", "WS.Props.C09.close_sets_sticky", "WS.Props.C09.seq_requests_fail"],
         streams=[("wclose", 800, 12000), ("wfault", 400, 6000)],
-        assumptions=["Go channel send/receive on c.mu and sync.Mutex are the atomic actions of WS.Model.Sched (Go runtime, not verified)",
-                     "compress/flate output is an environment answer validated against an independent deflate run"],
+        assumptions=["Go channel send/receive on c.mu and sync.Mutex are the atomic actions of WS.Model.Sched (Go runtime, not verified)", ASSUME_FLATE],
+    ),
+    "C10": P(
+        technique="Lean 4 invariant proofs over all write programs and all fault scripts + fault enumeration by differential correspondence",
+        level_text="Proof: for every program, every fault script (error/timeout/short write at any transport call) and every environment answer the accepted bytes are whole frames followed by at most one incomplete write, after the first failure nothing reaches the transport and every later write (incl. Close of an open writer) fails; invalid requests change nothing; each frame is written as SetWriteDeadline(d) then Write(s) with d the connection's deadline, resp. WriteControl's argument. Tie: random programs x every transport-call index up to 12 x {error, timeout, short write}, exact transport call log compared.",
+        level_note="Sequential model (one writer goroutine); concurrency is C09/C11.",
+        lean=["WS.Props.C10"],
+        streams=[("wfault", 1100, 20000), ("w", 300, 4000)],
+        assumptions=[ASSUME_FLATE],
+    ),
+    "C20": P(
+        technique="Lean 4 invariant proof over all write programs and fault scripts + differential correspondence with a poisoning pool",
+        level_text="Proof: for every program (invalid requests, abandoned writers) and every transport fault script on a pooled connection, Get/Put are balanced, a buffer is held only while a message writer is live, at most one writer is live, nothing is held between messages and no nil buffer is ever put back. Tie: instrumented LIFO pool shared by 1-4 connections that poisons buffers on Put and checks the poison on Get; Get/Put log (with buffer identities) compared with the model exactly; wire of every sharing connection judged by the RFC decoder.",
+        level_note="Theorem for connections without negotiated compression (with compression the invariant needs consistency of the flate answers; that part is covered by correspondence only). Concurrent sharing relies on the pool's own synchronisation (sync.Pool).",
+        lean=["WS.Props.C20"],
+        streams=[("w", 600, 10000), ("wfault", 400, 8000)],
+        assumptions=[ASSUME_FLATE],
     ),
 }
 
-# properties not (yet) claimed: filled in as checks are built
+# properties not (yet) claimed
 NOT_APPLICABLE = []
-NOTES = "All checks: ./check <id> quick|thorough. Known findings in KNOWN_FINDINGS.txt. See DESIGN.md."
-import json as _json, os as _os
+NOTES = "All checks: ./check <id> quick|thorough (VERIF_SEED honoured). Known findings: KNOWN_FINDINGS.txt. Design, trusted base and kill matrix: DESIGN.md."
 _ids = [_json.loads(l)["id"] for l in open(_os.path.join(_os.path.dirname(_os.path.abspath(__file__)), "properties.jsonl"))]
 for _i in _ids:
     if _i not in PROPS:
-        NOT_APPLICABLE.append({"property_id": _i, "reason": "check under construction in this session: model exists, theorem file and stream registration pending (not a limit of the technique)"})
+        NOT_APPLICABLE.append({"property_id": _i, "reason": "check under construction in this session (model and stream exist or are being built; not a limit of the technique)"})
